@@ -127,6 +127,8 @@ func ParseLabel(label string) (Op, error) {
 		op.N, _ = strconv.Atoi(strings.TrimSpace(f[0]))
 		op.G, _ = strconv.Atoi(strings.TrimSpace(f[1]))
 		op.V = unq(f[2])
+	case "PutBad":
+		op.N, _ = strconv.Atoi(strings.TrimSpace(args))
 	case "OpenStream":
 		f := strings.Split(args, ",")
 		op.N, _ = strconv.Atoi(strings.TrimSpace(f[0]))
@@ -641,10 +643,29 @@ func Execute(cfg Config, prog []Op, seed int64) (run Run, err error) {
 				} else {
 					stmRef, stmID, stmBody = [2]int{op.N, op.G}, op.V, nil
 				}
+			case "PutBad":
+				// refused for its value (a stream as a direct object inside an
+				// array or a dictionary): nothing may be recorded or written
+				ref := pdf.NewReference(uint32(op.N), 0)
+				inner := pdf.NewStream(pdf.Dict{}, []byte("x"))
+				var v pdf.Object = pdf.Array{pdf.Integer(1), inner}
+				if i%2 == 1 {
+					v = pdf.Dict{"A": pdf.Integer(1), "Z": pdf.Array{inner}}
+				}
+				cerr = w.Put(ref, v) // (accepted = an outcome the specification does not have)
 			case "OpenStreamBad":
 				// refused for its arguments: nothing may be recorded
 				ref := pdf.NewReference(uint32(op.N), gen(op.G))
 				d := shared.ToPDF(sdict["a"]).(pdf.Dict)
+				if op.Why == "directStream" {
+					d["Inner"] = pdf.Array{pdf.NewStream(pdf.Dict{}, []byte("x"))}
+					var s io.WriteCloser
+					s, cerr = w.OpenStream(ref, d)
+					if cerr == nil {
+						s.Close() // (accepted = an outcome the specification does not have)
+					}
+					return
+				}
 				var bad []pdf.Filter
 				if op.Why == "filterVersion" {
 					switch {
